@@ -9,6 +9,26 @@ sys.path.insert(0, '/verif')
 from harness import common
 
 
+def shake_load_factor(ctx) -> None:
+    """Document-level checks parse small ledgers; with the default load factor (1000 tokens per block) the token
+    store under them never leaves its single-block fast paths. Every parse therefore first draws a load factor
+    from {3, 5, 9, 1000} (seeded), so splits, merges and re-balancing happen under every property's edits.
+    (The store invariant does not depend on the load factor, so it may change between operations.)"""
+    import random
+    from autobean_refactor import parser as parser_lib
+    from harness import store_driver as sd
+    rng = random.Random(ctx.seed * 7919 + 13)
+    orig = parser_lib.Parser.parse
+
+    def parse(self, text, target, **kw):
+        if not getattr(sd, 'LF_PINNED', False):
+            sd.set_load_factor(rng.choice([3, 5, 9, 1000, 1000]))
+        return orig(self, text, target, **kw)
+
+    parser_lib.Parser.parse = parse
+    ctx.notes.append('token_store load factor drawn from {3,5,9,1000} before every parse')
+
+
 def main() -> int:
     ap = argparse.ArgumentParser()
     ap.add_argument('prop')
@@ -23,6 +43,8 @@ def main() -> int:
     except ModuleNotFoundError as e:
         print(f'no check for {prop}: {e}')
         return 2
+    if prop not in ('C07', 'C08', 'C02'):
+        shake_load_factor(ctx)
     try:
         if a.replay:
             return mod.replay(ctx, a.replay)
